@@ -1151,17 +1151,32 @@ func (fa *Facts) holdsRec(b *ssa.BasicBlock, pred func(factSet) bool, depth int,
 	if pred(fa.At(b)) {
 		return true
 	}
-	if depth > 4 || len(b.Preds) == 0 || onPath[b] {
+	if depth > 8 || len(b.Preds) == 0 || onPath[b] {
 		return false
 	}
 	onPath[b] = true
 	defer delete(onPath, b)
 	for _, p := range b.Preds {
+		if b.Dominates(p) {
+			// a back edge: what the previous iteration learnt about values the loop defines says
+			// nothing about this iteration's values
+			fs := factSet{}
+			for k := range factsOnEdge(fa, p, b) {
+				if !definedUnder(k.v, b) {
+					fs[k] = true
+				}
+			}
+			if pred(fs) {
+				continue
+			}
+			return false
+		}
 		if pred(factsOnEdge(fa, p, b)) {
 			continue
 		}
-		// a straight-line predecessor: look further up
-		if len(p.Succs) == 1 && fa.holdsRec(p, pred, depth+1, onPath) {
+		// whatever every way into p establishes still holds when p is left (facts speak about
+		// SSA values; only loop headers retract them): look further up
+		if fa.holdsRec(p, pred, depth+1, onPath) {
 			continue
 		}
 		return false
@@ -1216,4 +1231,214 @@ func isNonNilErrValue(v ssa.Value, depth int) bool {
 		}
 	}
 	return false
+}
+
+// flagBits: for an integer flag expression built from constants, `|` and
+// conditional additions (phi), the bits set on every path (must) and on some path (may).
+func flagBits(v ssa.Value, depth int) (must, may int64, ok bool) {
+	if depth > 6 {
+		return 0, 0, false
+	}
+	v = resolve(v)
+	if k, isC := constInt(v); isC {
+		return k, k, true
+	}
+	switch x := v.(type) {
+	case *ssa.BinOp:
+		if x.Op == token.OR || x.Op == token.ADD {
+			m1, y1, ok1 := flagBits(x.X, depth+1)
+			m2, y2, ok2 := flagBits(x.Y, depth+1)
+			return m1 | m2, y1 | y2, ok1 && ok2
+		}
+	case *ssa.Phi:
+		must, ok = -1, true
+		for _, e := range x.Edges {
+			if e == ssa.Value(x) {
+				continue
+			}
+			m, y, o := flagBits(e, depth+1)
+			if !o {
+				return 0, 0, false
+			}
+			must &= m
+			may |= y
+		}
+		return must, may, ok
+	case *ssa.Convert:
+		return flagBits(x.X, depth+1)
+	}
+	return 0, 0, false
+}
+
+// workerOf: if f only hands its parameters (plus constants) on to one function of its
+// own package and returns that call's results, the function that does the work (followed
+// up to three levels); otherwise f.
+func workerOf(f *ssa.Function) *ssa.Function {
+	for hop := 0; hop < 3; hop++ {
+		if f == nil || len(f.Blocks) != 1 {
+			return f
+		}
+		var only *ssa.Call
+		okShape := true
+		for _, in := range f.Blocks[0].Instrs {
+			switch x := in.(type) {
+			case *ssa.Call:
+				if only != nil {
+					okShape = false
+				}
+				only = x
+			case *ssa.Return, *ssa.Extract, *ssa.DebugRef, *ssa.Alloc, *ssa.Store, *ssa.UnOp, *ssa.FieldAddr, *ssa.MakeInterface, *ssa.ChangeType,
+				*ssa.Slice, *ssa.MakeSlice, *ssa.Convert, *ssa.ChangeInterface, *ssa.Field, *ssa.IndexAddr, *ssa.BinOp:
+			default:
+				okShape = false
+			}
+		}
+		if !okShape || only == nil {
+			return f
+		}
+		g := only.Call.StaticCallee()
+		if g == nil || g.Pkg != f.Pkg || g.Blocks == nil || g == f {
+			return f
+		}
+		// every result of f comes from the call
+		for _, r := range returnsOf(f) {
+			for _, rv := range r.Results {
+				v := resolve(rv)
+				if ex, isEx := v.(*ssa.Extract); isEx {
+					v = ex.Tuple
+				}
+				if v != ssa.Value(only) {
+					return f
+				}
+			}
+		}
+		f = g
+	}
+	return f
+}
+
+// ---------------------------------------------------------------------------
+// boolean flag fields, plain or atomic
+
+// flagFieldOfAddr: v is &x.F; returns "pkg.Type.F" (reference name).
+func flagFieldOfAddr(v ssa.Value) string {
+	if fa, ok := v.(*ssa.FieldAddr); ok {
+		return fieldName(fa)
+	}
+	return ""
+}
+
+// flagSetInstr: the instruction sets a flag field: `x.F = true`, atomic.StoreT(&x.F, non-zero)
+// or x.F.Store(true / non-zero).  Returns the field's qualified name.
+func flagSetInstr(in ssa.Instruction) string {
+	switch x := in.(type) {
+	case *ssa.Store:
+		if b, ok := constBool(x.Val); ok && b {
+			return flagFieldOfAddr(x.Addr)
+		}
+	case *ssa.Call:
+		cal := x.Call.StaticCallee()
+		if cal == nil || cal.Pkg == nil || cal.Pkg.Pkg.Path() != "sync/atomic" || len(x.Call.Args) < 2 {
+			return ""
+		}
+		if !strings.HasPrefix(cal.Name(), "Store") && !strings.HasPrefix(cal.Name(), "Swap") {
+			return ""
+		}
+		set := false
+		if b, ok := constBool(x.Call.Args[1]); ok && b {
+			set = true
+		}
+		if k, ok := constInt(x.Call.Args[1]); ok && k != 0 {
+			set = true
+		}
+		if set {
+			return flagFieldOfAddr(x.Call.Args[0])
+		}
+	}
+	return ""
+}
+
+// flagExpr: v is a boolean reading of flag field `field`: returns (true, positive) where
+// positive says whether v == true means "flag set".  Understands plain loads, atomic
+// loads compared with 0/1, atomic.Bool.Load, negation, and private predicate helpers
+// (func (x *T) isF() bool { return <flag expression> }).
+func flagExpr(v ssa.Value, field string, depth int) (isFlag, positive bool) {
+	if depth > 4 || v == nil {
+		return false, false
+	}
+	v = resolve(v)
+	isLoadOfField := func(x ssa.Value) bool {
+		x = resolve(x)
+		if u, ok := x.(*ssa.UnOp); ok && u.Op == token.MUL {
+			return flagFieldOfAddr(u.X) == field
+		}
+		if c, ok := x.(*ssa.Call); ok {
+			if cal := c.Call.StaticCallee(); cal != nil && cal.Pkg != nil && cal.Pkg.Pkg.Path() == "sync/atomic" && strings.HasPrefix(cal.Name(), "Load") && len(c.Call.Args) >= 1 {
+				return flagFieldOfAddr(c.Call.Args[0]) == field
+			}
+		}
+		return false
+	}
+	switch x := v.(type) {
+	case *ssa.UnOp:
+		if x.Op == token.NOT {
+			f, p := flagExpr(x.X, field, depth+1)
+			return f, !p
+		}
+		if isLoadOfField(x) && isBoolType(x.Type()) {
+			return true, true
+		}
+	case *ssa.BinOp:
+		var other, cst ssa.Value
+		if _, ok := x.Y.(*ssa.Const); ok {
+			other, cst = x.X, x.Y
+		} else if _, ok := x.X.(*ssa.Const); ok {
+			other, cst = x.Y, x.X
+		} else {
+			return false, false
+		}
+		if !isLoadOfField(other) {
+			return false, false
+		}
+		if k, ok := constInt(cst); ok {
+			switch {
+			case x.Op == token.NEQ && k == 0, x.Op == token.GTR && k == 0 && other == x.X, x.Op == token.EQL && k == 1, x.Op == token.GEQ && k == 1 && other == x.X:
+				return true, true
+			case x.Op == token.EQL && k == 0, x.Op == token.NEQ && k == 1:
+				return true, false
+			}
+		}
+		if b, ok := constBool(cst); ok && (x.Op == token.EQL || x.Op == token.NEQ) {
+			return true, (x.Op == token.EQL) == b
+		}
+	case *ssa.Call:
+		if isLoadOfField(x) && isBoolType(x.Type()) {
+			return true, true
+		}
+		h := x.Call.StaticCallee()
+		if h == nil || h.Blocks == nil || h.Signature.Results().Len() != 1 || !isBoolType(h.Signature.Results().At(0).Type()) || h.Signature.Recv() == nil {
+			return false, false
+		}
+		first := true
+		var pos bool
+		for _, r := range returnsOf(h) {
+			f, p := flagExpr(r.Results[0], field, depth+1)
+			if !f || (!first && p != pos) {
+				return false, false
+			}
+			pos, first = p, false
+		}
+		return !first, pos
+	}
+	return false, false
+}
+
+// flagKnownIn: the facts determine whether flag field `field` is set.
+func flagKnownIn(fs factSet, field string) (set, known bool) {
+	for k := range fs {
+		if f, pos := flagExpr(k.v, field, 0); f {
+			return k.pol == pos, true
+		}
+	}
+	return false, false
 }
